@@ -241,6 +241,17 @@ def run(F, R, tier):
                                           lambda o: o[0] == "call" and "KeyKeeperSharedState::get_current_key" in q.base_name(o[1]),
                                           "C04.R2")
 
+            # "while a key is latched": the key is read after the (client-paced) body has been read, so that between the snapshot and the
+            # send only the agent's own steps remain
+            from rules.c15 import body_sources
+            reads = [c[0] for c in B.calls if c[1] != mir.POLL and "KeyKeeperSharedState::get_current_key" in q.base_name(c[2] or c[1] or "")]
+            bs = [b for b, c in body_sources(B, F)]
+            okk = bool(reads) and bool(bs) and B.path([0], reads, cut_blocks=bs) is None
+            R.check(okk, "C04.R2", "C04.R2:%s:key-read-after-body" % HRS, q.where(B, reads[0]) if reads else "-",
+                    "the latched key is read after the request body was collected (no client-paced wait between the key snapshot and the send)",
+                    "the key snapshot is taken before the request body has been read: a slow upload keeps signing with a key that may have been "
+                    "rotated or first latched meanwhile")
+
     send_chain_untouched(F, R, G, "C04.R1")
 
     # HNR: claims/date inserts dominate the HRS call (signed request already carries the proxy headers)
